@@ -279,6 +279,8 @@ def main():
                     kf = next((k for k in open_kfs if finding_matches(k, prop, u['name'], pr)), None)
                     if kf: known.append((kf, u, pr))
                     else: violations.append((u, r, pr))
+                elif pr['status'] == 'UNKNOWN' and any(x['status'] == 'FAILURE' and classify(u, x) != 'sentinel' for x in r['results']):
+                    pass      # cbmc leaves obligations behind a failed one undecided; the failure itself is reported
                 else:
                     undecided.append((u, dict(r, reason='obligation %s has status %s' % (pr['id'], pr['status']))))
             if u.get('sentinel', True) and (sentinel_seen == 0 or sentinel_failed != sentinel_seen):
